@@ -171,6 +171,9 @@ FIXED = [
     ("C08", "4ee0b2a", "`var k='x'; var o={[k]:1}; o.x` was undefined: a computed key that is an identifier named the property 'k'"),
     ("C13", "1686d29", "`[1,,2].length` was 2 and `[,1].length` 1: elisions in array literals were dropped, shifting every later index"),
     ("C02", "bbcbe90", "`var a=[]; a.push(a.forEach); a.forEach(a.forEach)` ended in the host's RecursionError: a native used as the callback of a native was called outside the host-depth budget"),
+    ("C05", "cbdbd11", "`h(); function h(){}` failed with ReferenceError and `function f(){ return g(); function g(){} }` with \"undefined is not a function\": function declarations were initialised where they stand instead of on entry to their scope"),
+    ("C18", "606930f", "`(1.45).toFixed(1)` was 1.5, `(10.235).toFixed(2)` 10.24, `(123456789).toExponential(20)` ended in 88999999989009 and `(0.1+0.2).toExponential()` was 3e-1: the digits of the rounding formats came from float scaling by powers of ten instead of the exact value of the double"),
+    ("C16", "d1e4721", "`\"\".repeat(1e300)` and `\"\".repeat(2**53)` raised RangeError: only a negative or an infinite count is invalid, and copies of the empty string are empty (found by the author of seed C16-g)"),
     ("C20", "33cb6fa", "`'baa'.search(/a/y)` was 1, `'baa'.match(/a/y)` matched, `'aaba'.replace(/a/gy,'x')` was 'xxbx' (a sticky regex matches only where it starts); `var r=/a/g; r.lastIndex=1; 'aaaa'.match(r); r.lastIndex` stayed 1 and a failed global match or replace left lastIndex as it was (global match/replace start at 0 and leave 0); a sticky non-global match/replace did not advance or reset lastIndex"),
 ]
 
